@@ -18,6 +18,9 @@ struct Ac {
     kt: f64,
     surface: bool,
     parity: u32,
+    /// address of another aircraft of the same history (its own when alone): payload fields that can carry an
+    /// address (the threat identity of an ACAS resolution advisory) name it
+    peer: u32,
 }
 
 fn callsign(rng: &mut Rng, k: usize) -> [u8; 8] {
@@ -165,6 +168,14 @@ fn record_w(rng: &mut Rng, ac: &mut Ac, w: u64) -> (Vec<u8>, &'static str) {
         if reg == "bds20" {
             mb = frames::mb_bds20(&callsign(rng, k));
         }
+        if reg == "bds30" && rng.chance(0.6) {
+            // an active resolution advisory whose threat identity is the address of another aircraft of this history
+            // (or of an aircraft that never transmits): it is A's record, nothing of it belongs to the threat's entry
+            let mut b = crate::oracle::bits::Bits::from(&mb);
+            b.set(9, 1, rng.below(2)).set(27, 1, rng.below(2)).set(29, 2, 1);
+            b.set(31, 24, if rng.chance(0.7) { ac.peer as u64 } else { rng.below(1 << 24) });
+            mb.copy_from_slice(&b.bytes[..7]);
+        }
         if reg == "bds40" && rng.chance(0.8) {
             let code = (7 * rng.below(400) + k as u64) as u16;
             mb = frames::mb_bds40(frames::Bds40 {
@@ -248,10 +259,14 @@ pub fn run(a: &Args) {
                 kt: if surface { rng.uni(0.0, 40.0) } else { rng.uni(80.0, 550.0) },
                 surface,
                 parity: 0,
+                peer: addr,
             });
         }
         if acs.is_empty() {
             continue;
+        }
+        for i in 0..acs.len() {
+            acs[i].peer = acs[(i + 1) % acs.len()].addr;
         }
         let nrec = *rng.pick(&[1usize, 3, 10, 40, 120, 300]);
         let mut ts = *rng.pick(&[0.0f64, 1.0, 1_700_000_000.0, 86_399.5]) + rng.uni(0.0, 1.0);
